@@ -912,7 +912,7 @@ func impl() {
 
 func main() {
 	if len(os.Args) < 2 {
-		fmt.Fprintln(os.Stderr, "usage: c04 gen|impl")
+		fmt.Fprintln(os.Stderr, "usage: c04 gen|impl|extract")
 		os.Exit(2)
 	}
 	switch os.Args[1] {
@@ -921,5 +921,7 @@ func main() {
 		gen(seed, tier)
 	case "impl":
 		impl()
+	case "extract":
+		extractMain(os.Args[2:])
 	}
 }
